@@ -23,9 +23,18 @@ def xl_unicode(s):
         return n, b"\x00" + bytes(units[2 * i] for i in range(n))
     return n, b"\x01" + units
 
+def codepage_rec(key):
+    """the CodePage record (0x0042) of the globals: BIFF8 text never depends on it (audit-2 finding
+    XLS-1), so any value - Excel 1200, JExcelApi 1252, a DBCS page, UTF-8, values unknown to the
+    `codepage` crate - or no record is written, chosen by a hash of `key` (no PRNG draw)"""
+    import zlib
+    cps = [1200, 1200, 1252, 1252, 932, 936, 1251, 65001, 10000, 437, 54321, None]
+    cp = cps[zlib.crc32(repr(key).encode("utf-8", "replace")) % len(cps)]
+    return b"" if cp is None else struct.pack("<HHH", 0x0042, 2, cp)
+
 def workbook_stream(formats, xfs, is_1904, cells, date1904_value=1):
     bof_g = rec(0x0809, struct.pack("<HHHHII", 0x0600, 0x0005, 0x0DBB, 0x07CC, 0, 0x0306))
-    pre = bof_g + rec(0x0042, struct.pack("<H", 1200))
+    pre = bof_g + codepage_rec((formats, xfs, is_1904, cells))
     if is_1904 is not None:
         pre += rec(0x0022, struct.pack("<H", date1904_value if is_1904 else 0))
     for ifmt, s in formats:
